@@ -52,6 +52,17 @@ def main(argv):
 
     ss.StateSpace.choose_possible = counted_choose
 
+    # CrossHair may replace a call of an annotated function on symbolic
+    # arguments (its own builtin wrappers such as repr/len included) by a fresh
+    # "proxy return" value and reconcile at the end of the path; when the path
+    # has meanwhile compared that value with something else the attempt is
+    # thrown away (IgnoreAttempt "Reconcile short circuit") and the same
+    # inputs are explored again.  No harness relies on contracts of callees,
+    # so every call is interpreted.
+    import crosshair.core as ch_core
+    if os.environ.get("VERIF_SHORTCIRCUIT", "") != "1":
+        ch_core.consider_shortcircuit = lambda *a, **k: None
+
     _orig_fmv = ss.StateSpace.find_model_value
 
     def counted_fmv(self, *a, **k):
